@@ -168,24 +168,21 @@ Theorem C30_time_index_rejects_count_mismatch :
 Proof. exact read_track_rejects_count_mismatch. Qed.
 Print Assumptions C30_time_index_rejects_count_mismatch.
 
-(* (T5) "read_track answers Ok or Err on every input" is REFUTED: a track header whose count needs
-   more than isize::MAX bytes, presented with the matching length, panics in Vec::with_capacity.
-   Outside exactly that class (ti_capacity_class) it never panics.  Known finding F-C30-1. *)
+(* (T5) read_track answers Ok or Err on EVERY input: it never panics.  (Before the repair b6c8721 the
+   class ti_capacity_class -- a count needing more than isize::MAX bytes with the matching length --
+   panicked in Vec::with_capacity; the reader now reserves fallibly and answers "entry count too
+   large" on exactly that class.) *)
+Theorem C30_time_index_decode_no_panic :
+  forall file pos len s, read_track file pos len <> Panic s.
+Proof. exact read_track_no_panic. Qed.
+Print Assumptions C30_time_index_decode_no_panic.
+
+Theorem C30_time_index_too_large_iff :
+  forall file pos len, read_track file pos len = Err E_TI_TOO_LARGE <-> ti_capacity_class file pos len = true.
+Proof. exact read_track_too_large_iff. Qed.
+Print Assumptions C30_time_index_too_large_iff.
+
 Definition capacity_witness : bytes := TIME_INDEX_MAGIC ++ le_encode 8 (2 ^ 59).
-Theorem C30_time_index_total_refuted :
-  exists file pos len s, read_track file pos len = Panic s.
-Proof. exists capacity_witness, 0%nat, (12 + 16 * 2 ^ 59), P_TI_CAPACITY. vm_compute. reflexivity. Qed.
-Print Assumptions C30_time_index_total_refuted.
-
-Theorem C30_time_index_total_outside_known :
-  forall file pos len, ti_capacity_class file pos len = false -> forall s, read_track file pos len <> Panic s.
-Proof. exact read_track_no_panic_outside. Qed.
-Print Assumptions C30_time_index_total_outside_known.
-
-Theorem C30_time_index_known_class_exact :
-  forall file pos len, (exists s, read_track file pos len = Panic s) <-> ti_capacity_class file pos len = true.
-Proof. exact read_track_panic_iff. Qed.
-Print Assumptions C30_time_index_known_class_exact.
 
 Definition mkE (t : Z) (i : N) : entry := (t, i).
 Definition sample_entries : list entry := [mkE 30 2; mkE 10 0; mkE (-5) 7; mkE 10 0; mkE 20 1].
@@ -194,6 +191,7 @@ Example C30_time_index_nonvacuous :
   (let '((off, len, _), file', _) := append_track (fun _ => []) [1; 2; 3] 2 sample_entries in
    off = 2 /\ len = 92 /\ read_track file' 2 len = Ok [mkE (-5) 7; mkE 10 0; mkE 10 0; mkE 20 1; mkE 30 2]) /\
   ti_capacity_class capacity_witness 0 (12 + 16 * 2 ^ 59) = true /\
+  read_track capacity_witness 0 (12 + 16 * 2 ^ 59) = Err E_TI_TOO_LARGE /\
   ti_capacity_class (track_image sample_entries) 0 92 = false.
 Proof. vm_compute. repeat split; reflexivity. Qed.
 
